@@ -160,6 +160,14 @@ Definition sse_headers (asgi : bool) : list (list N * list N) :=
   :: (if asgi then [(lit "connection", lit "keep-alive")] else [])
   ++ [(lit "content-type", lit "text/event-stream; charset=utf-8")].
 
+(* the same headers for a response constructed with charset=cs: the Content-Type announces the charset the body is
+   encoded with (whoever reads the stream by the announced charset reads the events); every request that one response
+   object answers gets the same headers and the whole stream again (a response object has no memory of earlier requests) *)
+Definition sse_headers_cs (asgi : bool) (cs : list N) : list (list N * list N) :=
+  (lit "cache-control", lit "no-cache")
+  :: (if asgi then [(lit "connection", lit "keep-alive")] else [])
+  ++ [(lit "content-type", lit "text/event-stream; charset=" ++ cs)].
+
 (* what is yielded: an event or a keep-alive ping *)
 Inductive item : Type :=
 | Ev (e : event)
